@@ -284,8 +284,8 @@ enum Case {
 
 pub fn run(cx: &Cx) -> PropResult {
     let depth = 3;
-    let n_sinks = cx.n(4_000, 150_000);
-    let n_ops = cx.n(8_000, 400_000);
+    let n_sinks = cx.n(30_000, 800_000);
+    let n_ops = cx.n(60_000, 1_500_000);
     let acc = parallel(cx, &|shard, acc| {
         let cfg = ValCfg { non_bmp: true, ..ValCfg::default() };
         let strat = tv_strategy(depth, cfg);
